@@ -14,6 +14,10 @@ import (
 
 const defaultCharTrim = "\t \n\r"
 
+// maxRepeatLen is the maximum length in bytes of a string that
+// built-in functions are willing to build by repetition
+const maxRepeatLen = 1 << 26
+
 // strLenFunc returns the length of the given string
 func strLenFunc(_ *ctx.EvalCtx, receiver object.Object, _ ...object.Object) (object.Object, error) {
 	val := receiver.(*object.Str).Value
@@ -282,7 +286,18 @@ func strRepeatFunc(_ *ctx.EvalCtx, receiver object.Object, args ...object.Object
 	}
 
 	val := receiver.(*object.Str).Value
-	repeated := strings.Repeat(val, int(firstArg.Value))
+	count := firstArg.Value
+
+	if count < 0 {
+		count = 0
+	}
+
+	if len(val) > 0 && count > int64(maxRepeatLen/len(val)) {
+		msg := fmt.Sprintf(fail.ErrFuncResultTooLarge, "repeat", object.STR_OBJ)
+		return nil, errors.New(msg)
+	}
+
+	repeated := strings.Repeat(val, int(count))
 
 	return &object.Str{Value: repeated}, nil
 }
